@@ -40,6 +40,7 @@ THEOREMS = [
     "JanetModel.Props.C18.gen_tables",
     "JanetModel.Props.C18.gen_keywords",
     "JanetModel.Props.C18.gen_threadStart",
+    "JanetModel.Props.C18.gen_spawn_refines",
     "JanetModel.Props.C18.gen_mayGrow",
     "JanetModel.Props.C18.gen_sandboxShape",
     "JanetModel.Props.C18.benign_calls_keep_flags",
